@@ -170,6 +170,19 @@ inductive EnvOk : Env → Ctx → Prop
   | cons {x v τ env Γ} : HasShape v τ → EnvOk env Γ → EnvOk ((x, v) :: env) ((x, τ) :: Γ)
 end
 
+/-- What the REAL checker accepts beyond `HasType` (defect D17). check/src/typecheck.rs:1016-1033:
+    when a record literal is checked against an expected record type, the field names are
+    compared as a *set* (`FnvSet`); if the sets agree the subsumption against the expected type is
+    skipped (`expected_type.take()`, "No need to do subsumption checking …") and with it the
+    order-sensitive comparison of closed rows (check/src/unify_type.rs:500-513, "HACK For non
+    polymorphic records we need to care about field order"). The literal then gets the EXPECTED
+    type although the compiler lays it out in source order. In the positional model: a record
+    literal may be given any permutation of its own type. -/
+inductive AcceptsReal : Ctx → Expr → STy → Prop
+  | sound {Γ e τ} : HasType D Γ e τ → AcceptsReal Γ e τ
+  | literalAnyOrder {Γ fields layout σs τs τs'} : HasTypes D Γ fields σs → LayoutOk layout σs [] τs →
+      List.Perm τs τs' → AcceptsReal Γ (.record fields none layout) (.recd τs')
+
 /-- "did not go wrong, and a value has the promised shape" -/
 def Safe (r : Res) (τ : STy) : Prop :=
   match r with
